@@ -47,6 +47,8 @@ var (
 	famUB = &core.Family{Name: "unsigned-big", Members: []core.FamilyMember{fm("UInt128", "", 128), fm("UInt256", "", 256)}}
 	famWB = &core.Family{Name: "word-big", Members: []core.FamilyMember{fm("Word128", "", 128), fm("Word256", "", 256)}}
 	famF  = &core.Family{Name: "fix128", Members: []core.FamilyMember{fm("Fix128", "", 128), fm("UFix128", "", 128)}}
+	famF64      = &core.Family{Name: "fix64", Members: []core.FamilyMember{fm("Fix64", "int64", 64), fm("UFix64", "uint64", 64)}}
+	famEnv      = &core.Family{Name: "environments", Members: []core.FamilyMember{{Tag: "InterpreterEnvironment"}, {Tag: "vmEnvironment"}}}
 	allFamilies = []*core.Family{famS, famU, famW, famSB, famUB, famWB}
 )
 
